@@ -827,6 +827,26 @@ fn marker_scan(cx: &Ctx, body: &[u8], allow: &[Vec<String>]) -> Option<String> {
     None
 }
 
+/// A response that declares a content coding carries another stored representation of the file:
+/// by convention the sibling with the coding's suffix. None: no coding declared; Some(None): a
+/// coding is declared but no such sibling exists (nothing to compare with); Some(Some(bytes)).
+fn coded_representation<'a>(cx: &'a Ctx, p: &[String], resp: &Resp) -> Option<Option<&'a Vec<u8>>> {
+    let enc = resp.get("Content-Encoding")?.trim().to_ascii_lowercase();
+    if enc.is_empty() || enc == "identity" {
+        return None;
+    }
+    let suffix = match enc.as_str() {
+        "gzip" | "x-gzip" => ".gz",
+        "br" => ".br",
+        "zstd" => ".zst",
+        _ => return Some(None),
+    };
+    let mut q = p.to_vec();
+    let last = q.pop()?;
+    q.push(format!("{}{}", last, suffix));
+    Some(cx.fs.file(&q))
+}
+
 fn root_404(cx: &Ctx) -> Vec<String> {
     let mut p = cx.fs.root.clone();
     p.push("404.html".into());
@@ -850,6 +870,19 @@ fn check_lookup(cx: &Ctx, prop: &str, i: usize, o: &mut Outcome) -> bool {
     let nf_ok = lk.allowed.contains(&Answer::NotFound);
     match resp.code {
         200 => {
+            // a declared content coding: compare with the precompressed sibling, or not at all
+            if let Some(f0) = files.first() {
+                match coded_representation(cx, f0, resp) {
+                    Some(None) => return false,
+                    Some(Some(rep)) => {
+                        if *rep != resp.body {
+                            o.verdicts.push(v(prop, format!("lookup.{}.wrong_bytes_for_declared_coding", lk.note.replace(' ', "_")), format!("{}: Content-Encoding {:?} but the {} bytes sent are not the stored representation with that coding ({} bytes)", req_txt, resp.get("Content-Encoding"), resp.body.len(), rep.len()), Some(i)));
+                        }
+                        return true;
+                    }
+                    None => {}
+                }
+            }
             let hit = files.iter().find(|p| cx.fs.file(p).map(|b| *b == resp.body).unwrap_or(false));
             match hit {
                 None => {
@@ -924,7 +957,9 @@ fn c02(cx: &Ctx, o: &mut Outcome) {
             if resp.code == 200 {
                 let lk = model::lookup(&cx.fs, &cx.reqs[i].target);
                 if let Some(Answer::File(p)) = lk.allowed.iter().find(|a| matches!(a, Answer::File(_))) {
-                    if let Some(ext) = model::extension(p.last().map(|s| s.as_str()).unwrap_or("")) {
+                    // (a name without extension is a class of its own: the label is a function of the
+                    // extension, not of what the file holds)
+                    if let Some(ext) = model::extension(p.last().map(|s| s.as_str()).unwrap_or("")).or(Some("<none>")) {
                         let got = model::essence(resp.get("Content-Type").unwrap_or(""));
                         match by_ext.get(ext) {
                             None => {
@@ -991,7 +1026,12 @@ fn c03(cx: &Ctx, o: &mut Outcome) {
         let lk = model::lookup(&cx.fs, &rq.target);
         let no_file: Vec<u8> = vec![];
         let file: &Vec<u8> = match lk.allowed.as_slice() {
-            [Answer::File(p)] => cx.fs.file(p).unwrap_or(&no_file),
+            [Answer::File(p)] => match cx.resp(i).and_then(|r| coded_representation(cx, p, r)) {
+                // the ranges of a response with a declared content coding are ranges of that representation
+                Some(Some(rep)) => rep,
+                Some(None) => continue,
+                None => cx.fs.file(p).unwrap_or(&no_file),
+            },
             _ => continue,
         };
         // "for a single range a Content-Length equal to the bytes sent", whatever the class of the range
